@@ -47,16 +47,7 @@ Print Assumptions C20_cancel_full.
 (* Wallet + escrow accounts of the pending orders, of EVERY user and denom, are conserved by every create
    (spot limit orders, perpetual open orders) and every update, successful or rejected, in any well-formed
    state (ids unique and below the counters, accounts of not yet issued ids empty), both versions.
-   PARTIAL. Full statement (C20_conserved), not proved here:
-     forall fixed-model histories h without transfers to escrow accounts, forall steps o of h, forall users u
-     none of whose orders is successfully executed by o, forall d: total (exec_gen true s o) u d = total s u d,
-     together with "WF and exact_escrow hold in every reachable state of the repaired model".
-   What is missing: the induction showing WF / exact_escrow are invariants, the batch cancels and the execute
-   requests that succeed for OTHER owners. The remaining steps are covered separately: single cancels by
-   C20_cancel_full (the owner receives exactly the escrow, no other account moves), requests that execute
-   nothing by C20_untouched_unless_trigger / C20_failed_execute_unchanged_fixed (state unchanged), rejected
-   transactions by run_tx (state unchanged); the correspondence run evaluates the conservation predicate on the
-   implementation after every transaction. *)
+   Kept from the first round; the full statement is C20_conserved / C20_conserved_history below. *)
 Theorem C20_conserved_partial : forall fixed s o, WF s ->
   match o with
   | OCreateSpot _ typ _ _ _ _ _ _ => typ <> 3
@@ -66,6 +57,79 @@ Theorem C20_conserved_partial : forall fixed s o, WF s ->
   forall u d, total (exec_gen fixed s o) u d = total s u d.
 Proof. exact conserved_partial. Qed.
 Print Assumptions C20_conserved_partial.
+
+(* ---------------------------------------------------------------------------------------------------
+   History level, for the handler as it is since the fix (each order attempt on a cache context).
+   [Inv s]: order keys unique and below the counters; the escrow account of EVERY pending order holds exactly
+   its escrowed coin and nothing else; every escrow account that belongs to no pending order (cancelled,
+   executed, not yet issued) is empty.
+   [no_escrow_transfers h]: no plain bank transfer (OSend) of the history goes to an escrow account. That
+   is the only excluded input: tokens a third party sends to an escrow account are not the owner's funds;
+   a perpetual cancel returns exactly the collateral and leaves them behind, a spot cancel hands them to the
+   owner. Everything else is covered: creates incl. market buys with any inner result, updates, single and
+   batch cancels from anyone, execute requests from anyone with ANY resolved prices and inner results
+   (ok / error / panic, any committed transfers between the owner and outside accounts), transfers between
+   users, blocks (wallets rewritten arbitrarily by OEnv), and every rejected or panicking transaction. *)
+
+(* Inv is an invariant: it holds after every such history started in any state satisfying it ... *)
+Theorem C20_escrow_invariant : forall h s, Inv s -> no_escrow_transfers h -> Inv (run_gen true s h).
+Proof. exact inv_run. Qed.
+Print Assumptions C20_escrow_invariant.
+
+(* ... in particular from the empty order book with arbitrary user wallets (the state the harness starts from) *)
+Theorem C20_escrow_invariant_from_empty : forall l h, no_escrow_transfers h ->
+  Inv (run_gen true (init_state (set_wallets (fun _ _ => 0) l)) h).
+Proof. exact inv_run_from_wallets. Qed.
+Print Assumptions C20_escrow_invariant_from_empty.
+
+(* hence in every reachable state the owner's cancel of any pending order succeeds, pays the owner exactly
+   the escrowed coin, empties the escrow account and touches no other account (C20_cancel_full without its
+   hypothesis) *)
+Theorem C20_cancel_full_history : forall h s, Inv s -> no_escrow_transfers h ->
+  let t := run_gen true s h in
+  forall p id o, find_ord p id (ords t) = Some o -> id <> 0 ->
+  exists t', step_gen true t (if p then OCancelPerp (o_owner o) id else OCancelSpot (o_owner o) id) = Ok t' /\
+    ords t' = remove_ord p id (ords t) /\
+    (forall d, bk t' (esc o) d = 0) /\
+    (forall d, bk t' (AUser (o_owner o)) d = bk t (AUser (o_owner o)) d + (if d =? o_den o then o_amt o else 0)) /\
+    (forall a d, a <> esc o -> a <> AUser (o_owner o) -> bk t' a d = bk t a d).
+Proof. exact cancel_full_history. Qed.
+Print Assumptions C20_cancel_full_history.
+
+(* Conservation, per step, for EVERY kind of step: wallet + escrow accounts of the pending orders of user u
+   are unchanged by step o from any sender unless [quiet s o u] fails, i.e. unless o is
+     - an execute request listing an order of u whose attempt can succeed (trigger met AND inner call ok)
+       (orders of OTHER owners may execute in the same request),
+     - a market-buy create of u (filled at once: the inner swap's transfers are u's own trade),
+     - a plain transfer from u or to u's wallet, or a block that settles u's queued swaps (OEnv naming u).
+   Creates, updates, the owner's single and batch cancels (the escrow moves to the wallet), non-owner /
+   rejected / panicking transactions and execute requests for other owners all conserve it. *)
+Theorem C20_conserved : forall s o u, Inv s -> op_ok o = true -> quiet s o u ->
+  forall d, total (exec_gen true s o) u d = total s u d.
+Proof. exact conserved. Qed.
+Print Assumptions C20_conserved.
+
+(* ... and over every history all of whose steps are quiet for u (quiet is evaluated in the state each step
+   starts from) *)
+Theorem C20_conserved_history : forall h s u, Inv s -> no_escrow_transfers h -> quiet_run s h u ->
+  forall d, total (run_gen true s h) u d = total s u d.
+Proof. exact conserved_history. Qed.
+Print Assumptions C20_conserved_history.
+
+(* non-vacuity of the two history theorems: user 0 creates a limit sell, user 1 a perpetual order, user 0
+   updates and creates a second order, a third party executes user 1's order (successfully), user 0 batch
+   cancels: the hypotheses hold for u = 0, user 0's funds are conserved, user 1's are not (its order executed) *)
+Theorem C20_conserved_nonvacuous :
+  Inv ex_s0 /\ no_escrow_transfers ex_h /\ quiet_run ex_s0 ex_h 0 /\
+  length (ords (run_gen true ex_s0 (firstn 4 ex_h))) = 3%nat /\
+  length (ords (run_gen true ex_s0 (firstn 5 ex_h))) = 2%nat /\
+  bk (run_gen true ex_s0 (firstn 5 ex_h)) (AUser 0) 1 = 1000000000000 - 3000000 /\
+  total (run_gen true ex_s0 (firstn 5 ex_h)) 0 1 = 1000000000000 /\
+  ords (run_gen true ex_s0 ex_h) = [] /\
+  total (run_gen true ex_s0 ex_h) 0 1 = total ex_s0 0 1 /\
+  total (run_gen true ex_s0 ex_h) 1 0 = total ex_s0 1 0 - 10000000.
+Proof. exact conserved_nonvacuous. Qed.
+Print Assumptions C20_conserved_nonvacuous.
 
 (* Repaired handler: an execute request in which no attempt succeeds (trigger not met, no price, or the
    inner swap / perpetual open fails or leaves partial writes) changes nothing: order, escrow and owner
